@@ -68,7 +68,12 @@ def narrowing(ctx, cfg):
         ctx.check(z3.fpEQ(t.t, z3.fpToFP(fp.RNE, z3.fpToFP(fp.RNE, t.t, fp.F32), fp.D)), "rate-is-float32-fixed-point")
         if ctx.fork(z3.fpLT(t.t, z3.FPVal(1.0, fp.D))):       # a stored rate of exactly 1.0f cannot occur: ln 1 = 0 gives zero hashes (rejected)
             try:
-                BloomFilter._get_optimized_params(est, t)      # what _parse_footer does on every reload
+                class _Footer:      # a footer whose fields are (est, 0, the stored binary32 rate): the REAL _parse_footer runs on it
+                    size = 20
+
+                    def unpack_from(self, d, offset=0):
+                        return (est, 0, t)
+                BloomFilter._parse_footer(_Footer(), b"")       # every reload goes through here (round 5: a floor applied to the stored rate)
                 ctx.check(False, "reload-reaches-ln")
             except InitializationError:
                 ctx.check(False, "reload-same-geometry")
@@ -76,7 +81,7 @@ def narrowing(ctx, cfg):
             except _Cut:
                 pass
             # same (est, ln argument) => same geometry, the remaining computation being a pure function of the two
-            ctx.check(z3.fpEQ(seen[-1].t, t.t), "reload-same-geometry")
+            ctx.check(z3.fpEQ(fp.SF.lift(seen[-1]), t.t), "reload-same-geometry")   # (a plain float reaches ln when the code substitutes a constant)
     else:
         import struct
         p = ctx.fp("p")
@@ -88,6 +93,8 @@ def narrowing(ctx, cfg):
         ctx.check(n32 == t, "rate-is-float32-fixed-point")
         ctx.check(struct.unpack("f", struct.pack("f", p))[0] == t, "rate-is-narrowed-request")
         ctx.check(BloomFilter._get_optimized_params(est, t) == (t, k, m), "reload-same-geometry")
+        foot = BloomFilter._FOOTER_STRUCT.pack(est, 0, t)
+        ctx.check(BloomFilter._parse_footer(BloomFilter._FOOTER_STRUCT, foot) == (est, 0, t, k, m), "reload-same-geometry")
 
 
 def cms_width(ctx, cfg):
